@@ -916,12 +916,13 @@ class Fold(ast.NodeTransformer):
                 ast.fix_missing_locations(wrapped)
                 n.body = [wrapped]
             self.nz._local_touched = True
-        elif isinstance(it, (ast.GeneratorExp, ast.ListComp)) and len(it.generators) == 1 and isinstance(it.generators[0].target, ast.Name) \
+        elif isinstance(it, ast.GeneratorExp) and len(it.generators) == 1 and isinstance(it.generators[0].target, ast.Name) \
                 and isinstance(n.target, ast.Name) and not n.orelse and not it.generators[0].is_async \
                 and not any(isinstance(x, (ast.Break, ast.Continue)) for b in n.body for x in ast.walk(b)) \
-                and it.generators[0].target.id != n.target.id and (isinstance(it, ast.GeneratorExp) or is_pure(it.elt)):
+                and it.generators[0].target.id != n.target.id:
             # for v in (E(x) for x in XS if c):  ==  for x in XS: if c: v = E(x); ...   (the generator is consumed one element per round,
-            # so element and body alternate exactly as before; a list comprehension only when its element has no effect)
+            # so element and body alternate exactly as before).  NOT for a list comprehension: that is a snapshot taken before the first
+            # round, and a body that edits what it ranges over (for k in [k for k in d if ..]: del d[k]) depends on it (sa.normcheck, seed C14-t1)
             g = it.generators[0]
             # the generator's variable lives in the generator's own scope: it becomes a fresh local here
             nv = g.target.id if g.target.id.startswith(("x__", "y__", "t__")) else self._fresh(g.target.id)
